@@ -6,7 +6,7 @@ Parsed files are cached (pickle) next to the dump, keyed by the dump's content h
 import hashlib, os, pickle, re
 from dataclasses import dataclass, field
 
-PARSER_VERSION = 11
+PARSER_VERSION = 12
 
 
 @dataclass
@@ -189,6 +189,9 @@ def parse_rvalue(s):
         return ("use", parse_operand(a[0]))
     if m and m.group(1) in ("SizeOf", "AlignOf", "UbChecks", "ContractChecks", "OverflowChecks", "NullOp"):
         return ("nullop", m.group(1), m.group(2))
+    m = re.match(r"^([\w:<>, ]+?) as (.*) \((PointerCoercion\(ReifyFnPointer.*)\)$", s)
+    if m and not s.startswith(("copy ", "move ", "const ")):
+        return ("cast", ("const", m.group(1).strip()), m.group(2), m.group(3))          # fn item -> fn pointer
     if s.startswith(("copy ", "move ", "const ", "no_retag ")):
         # maybe a cast:  "<operand> as <ty> (<Kind>)"
         m = re.match(r"^(.*) as (.*) \(([A-Za-z]+)(\(.*\))?(, [A-Za-z]+)?\)$", s)
